@@ -51,6 +51,11 @@ def gen_s_case(rng, cls=None, force=None):
     else:
         case = c04.gen_case(rng, cls, force)
     case["fam"] = "S"
+    p = case["params"]
+    if "max_n_mod" in p and p["min_freq"] < 0.1:
+        # up to 20 base modalities: keep the number of tested combinations (all recorded in the
+        # history) in the hundreds
+        p["max_n_mod"] = min(p["max_n_mod"], 3)
     return case
 
 
@@ -704,11 +709,41 @@ def c_rows(tbl, odt):
     return "(SumOk " + C.clist(items) + ")"
 
 
+MAX_CELLS = 40
+
+
+def thin16(st, cells, outs):
+    """at most ~MAX_CELLS (cell, output) pairs of a feature go to Coq (the python oracle sees every
+    pair): missing values, the neighbours of every leader, an even sample of the rest"""
+    if isinstance(outs, str) or len(cells) <= MAX_CELLS:
+        return cells, outs
+    vals = decs(cells)
+    keep = {i for i, v in enumerate(vals) if C.is_nan(v)}
+    if st["kind"] == "quant":
+        import bisect
+        fin = sorted((i for i, v in enumerate(vals) if not C.is_nan(v)), key=lambda i: vals[i])
+        xs = [vals[i] for i in fin]
+        for l in decs(st["keys"]):
+            if isinstance(l, str) or C.is_nan(l):
+                continue
+            j = bisect.bisect_left(xs, l)
+            for d in (-1, 0, 1):
+                if 0 <= j + d < len(fin):
+                    keep.add(fin[j + d])
+        rest = fin
+    else:
+        rest = [i for i, v in enumerate(vals) if not C.is_nan(v)]
+    step = max(1, len(rest) // max(1, MAX_CELLS - len(keep)))
+    keep.update(rest[::step])
+    idx = sorted(keep)[:MAX_CELLS + 30]
+    return [cells[i] for i in idx], [outs[i] for i in idx]
+
+
 def coq_s(case, out):
     odt = case["params"]["output_dtype"]
     feats = []
     for st, r in zip(out["features"], out["runs"]):
-        tc = c04.coq_tcase(st, *c04.thin_cells(st, r["cells"], r["out"]), fitted=True)
+        tc = c04.coq_tcase(st, *thin16(st, r["cells"], r["out"]), fitted=True)
         feats.append(C.cpair(C.cstr(st["name"]), f"({tc})"))
     each = [C.cpair(C.cstr(n), c_rows(t, odt)) for n, t in out["summary_each"].items()]
     unk = [C.cpair(C.cstr(n), c_rows(t, odt)) for n, t in out["summary_unknown"].items()]
@@ -745,10 +780,10 @@ def coq_h(case, out):
 class C16(Prop):
     pid = "C16"
     theorems = ["C16_summary_partition", "C16_summary_values_known", "C16_summary_quantitative_rows",
-                "C16_summary_nan_row", "C16_summary_feature_only", "C16_summary_feature_is_filter",
-                "C16_summary_kept_features", "C16_summary_unknown_feature",
-                "C16_history_last_viable", "C16_history_candidates_once", "C16_history_shape",
-                "C16_history_fitted_grouping"]
+                "C16_summary_quantitative_content", "C16_summary_nan_row", "C16_summary_nan_row_unique",
+                "C16_summary_feature_only", "C16_summary_feature_is_filter", "C16_summary_kept_features",
+                "C16_summary_unknown_feature", "C16_history_last_viable", "C16_history_candidates_once",
+                "C16_history_shape", "C16_history_fitted_grouping", "C16_history_layout"]
     coq_targets = ["Properties/C16.vo", "Model/CheckC16.vo"]
     rule = ("family S: one fitted object per case = training frame of props.c04.gen_case (40-400 rows, 1-3 "
             "features: quantitative flavours incl. close boundaries, categorical incl. numeric-looking "
@@ -798,10 +833,14 @@ class C16(Prop):
         cs.append(dict(cs[0], cls="BinaryCarver",
                        params={"min_freq": 0.2, "output_dtype": "float", "dropna": True, "max_n_mod": 3,
                                "sort_by": "tschuprowt"}))
+        import os
+        path = os.path.join(C.VERIF, "corpus", "findings", "C16-O33-summary-feature-leaks-nan-rows.json")
+        if os.path.exists(path):
+            cs.append(json.load(open(path))["case"])
         return cs
 
     def generate(self, rng, tier):
-        ns, nh = (150, 110) if tier == "quick" else (1800, 2200)
+        ns, nh = (150, 110) if tier == "quick" else (1200, 1500)
         cases = []
         for i in range(ns):
             cls = CLASSES[i % len(CLASSES)]
@@ -834,7 +873,7 @@ class C16(Prop):
 
     def coq_shards(self, cases, outs):
         shards = []
-        for part in chunks(list(zip(cases, outs)), 8):
+        for part in chunks(list(zip(cases, outs)), 6):
             terms = [coq_s(c, o) if c["fam"] == "S" else coq_h(c, o) for c, o in part]
             txt = ("From Coq Require Import ZArith QArith List.\nImport ListNotations.\n"
                    "From AC.Model Require Import Base GroupedList Labels Transform FormatRule CheckC04.\n"
